@@ -131,7 +131,8 @@ def write_forcing_file(path: Path, sc, frames: list[int], times=None, file_index
         idx = [truth.file_of_frame(sc, f) for f in frames]
         file_index = max(set(idx), key=idx.count)
     with Dataset(path, "w", format="NETCDF4") as nc:
-        _write_grid_vars(nc, sc, dims_only=bool(sc["frames"].get("grid_in_first_only")) and file_index > 0)
+        _write_grid_vars(nc, sc, dims_only=(bool(sc["frames"].get("grid_in_first_only")) and file_index > 0)
+                         or bool(sc["frames"].get("no_grid_in_forcing")))
         nc.createDimension("ocean_time", None)
         tv = nc.createVariable("ocean_time", "f8", ("ocean_time",))
         packed = truth.file_storage(sc, file_index)[0] == "i2"
